@@ -641,7 +641,7 @@ fn lorawan_channel_grids() -> Vec<(u32, u32, u32)> {
 }
 
 /// Frequency batches (f0, step, n) for C13 / C17.
-fn freq_batches(thorough: bool, seed: u64) -> Vec<(u32, u32, u32)> {
+fn freq_batches(thorough: bool, seed: u64, raster_hz: u32) -> Vec<(u32, u32, u32)> {
     let mut v = lorawan_channel_grids();
     // coarse stride over the whole tuning range 137..1020 MHz
     let stride: u32 = if thorough { 9_973 } else { 200_003 };
@@ -657,14 +657,14 @@ fn freq_batches(thorough: bool, seed: u64) -> Vec<(u32, u32, u32)> {
         v.push((e - 2, 1, 5));
     }
     if thorough {
-        // every 100 Hz of the LoRaWAN bands
+        // every `raster_hz` of the LoRaWAN bands (100 Hz where affordable)
         for (lo, hi) in [(433_050_000u32, 434_790_000u32), (470_000_000, 510_000_000), (779_000_000, 787_000_000),
                          (863_000_000, 870_000_000), (902_000_000, 928_000_000)] {
             let mut f = lo;
             while f <= hi {
-                let n = ((hi - f) / 100 + 1).min(1000);
-                v.push((f, 100, n));
-                f += 100 * n;
+                let n = ((hi - f) / raster_hz + 1).min(1000);
+                v.push((f, raster_hz, n));
+                f += raster_hz * n;
             }
         }
     }
@@ -738,7 +738,7 @@ pub fn vh_decode(a: &Args) {
 
     // ---------------------------------------------------------------- frequency
     if parts.contains(&"freq") {
-        let mut batches = freq_batches(a.thorough, a.seed);
+        let mut batches = freq_batches(a.thorough, a.seed, 100);
         // one full period of the SX126x conversion (15 625 Hz <-> 16 384 steps), 1 Hz granularity, at several bases
         let bases: Vec<u32> = if a.thorough { vec![137_000_000, 433_046_875, 868_093_750, 915_000_000, 1_019_984_375] } else { vec![868_093_750] };
         for b in bases {
@@ -1277,7 +1277,8 @@ fn wire_126(a: &Args, col: &mut Collector, rng: &mut StdRng) {
         }
         // ---------------- frequency
         if only("rf_freq") {
-            for (f0, step, n) in freq_batches(th, a.seed) {
+            // the 100 Hz raster of the LoRaWAN bands on the SX1262 (both drivers); the SX1261 shares the code path: 1 kHz
+            for (f0, step, n) in freq_batches(th, a.seed, if chip == "sx1262" { 100 } else { 1000 }) {
                 for i in 0..n {
                     let f = f0 + i * step;
                     let fa = [(f >> 16) as i64, (f & 0xFFFF) as i64];
@@ -1293,7 +1294,7 @@ fn wire_126(a: &Args, col: &mut Collector, rng: &mut StdRng) {
             }
         }
         if only("cal_image") {
-            for (f0, step, n) in freq_batches(false, a.seed) {
+            for (f0, step, n) in freq_batches(false, a.seed, 1000) {
                 for i in 0..n {
                     let f = f0 + i * step;
                     let fa = [(f >> 16) as i64, (f & 0xFFFF) as i64];
@@ -1817,7 +1818,7 @@ fn wire_127(a: &Args, col: &mut Collector, rng: &mut StdRng) {
             }
         }
         if only("rf_freq") {
-            for (f0, step, n) in freq_batches(th, a.seed) {
+            for (f0, step, n) in freq_batches(th, a.seed, 1000) {
                 for i in 0..n {
                     let f = f0 + i * step;
                     let fa = [(f >> 16) as i64, (f & 0xFFFF) as i64];
